@@ -795,6 +795,23 @@ func (env *specEnv) call(n *SCall) (TV, error) {
 	}
 	sf := vc.P.Contracts.Specs[n.Fn]
 	if sf == nil {
+		// a Go function declared "functional" may be used in contracts: same uninterpreted function as at its call sites
+		if gf := vc.P.functionalByName(env.pkg, n.Fn); gf != nil && len(n.Args) == len(gf.Params) && gf.Signature.Results().Len() == 1 {
+			var args []string
+			for k, a := range n.Args {
+				tv, err := env.Term(a)
+				if err != nil {
+					return TV{}, err
+				}
+				tv, err = env.coerce(tv, S.SortOf(gf.Params[k].Type()))
+				if err != nil {
+					return TV{}, fmt.Errorf("argument %d of %s: %v", k, n.Fn, err)
+				}
+				args = append(args, tv.T)
+			}
+			rt := gf.Signature.Results().At(0).Type()
+			return TV{vc.functionalApp(gf, args), S.SortOf(rt), rt}, nil
+		}
 		return TV{}, fmt.Errorf("unknown function %s", n.Fn)
 	}
 	if len(n.Args) != len(sf.Params) {
